@@ -1020,6 +1020,53 @@ fn build(e: &ExpResponse) -> (J, Vec<Site>) {
     (J::Obj(top), b.sites)
 }
 
+/// Add unknown members (any JSON kind) to the objects that are NOT extension points — the document itself,
+/// response, daystart, ping, event[], urls, url[], manifest, actions, packages — each with chance 1/3.
+/// `ctx` names the kind of object `j` is; recursion follows the protocol's own member names only.
+fn add_ignored(j: &mut J, rng: &mut Rng, ctx: &'static str) {
+    const UNKNOWN_KEYS: [&str; 6] = ["_x", "zz_future", "X-Debug", "_server_tz", "id", "elapsed"];
+    match j {
+        J::Arr(v) => {
+            for x in v.iter_mut() {
+                add_ignored(x, rng, ctx);
+            }
+        }
+        J::Obj(m) => {
+            let child = |k: &str| -> Option<&'static str> {
+                match (ctx, k) {
+                    ("doc", "response") => Some("response"),
+                    ("response", "daystart") => Some("daystart"),
+                    ("response", "app") => Some("app"),
+                    ("app", "ping") => Some("ping"),
+                    ("app", "event") => Some("event"),
+                    ("app", "updatecheck") => Some("uc"),
+                    ("uc", "urls") => Some("urls"),
+                    ("urls", "url") => Some("urlitem"),
+                    ("uc", "manifest") => Some("manifest"),
+                    ("manifest", "actions") => Some("actions"),
+                    ("manifest", "packages") => Some("packages"),
+                    _ => None,
+                }
+            };
+            for (k, v) in m.iter_mut() {
+                if let Some(c) = child(k) {
+                    add_ignored(v, rng, c);
+                }
+            }
+            let extension_point = matches!(ctx, "app" | "uc");
+            if !extension_point && rng.chance(1, 3) {
+                let key = *rng.pick(&UNKNOWN_KEYS);
+                if !m.iter().any(|(k, _)| k == key) {
+                    let v = gen_ext_value(rng, 0);
+                    let at = rng.usize(m.len() + 1);
+                    m.insert(at, (key.to_string(), v));
+                }
+            }
+        }
+        _ => {}
+    }
+}
+
 fn at<'a>(j: &'a mut J, path: &[P]) -> Option<&'a mut J> {
     let mut cur = j;
     for p in path {
@@ -1070,6 +1117,11 @@ fn wrong_values(k: K, null_dc: bool) -> Vec<(&'static str, J)> {
             ("array", J::Arr(vec![])),
             ("array-of-string", J::Arr(vec![s("ok")])),
             ("number-0", J::U(0)),
+            // the shapes an enum-like value takes in serde's tagged representations
+            ("object-ok-null", J::Obj(vec![("ok".to_string(), J::Null)])),
+            ("object-noupdate-null", J::Obj(vec![("noupdate".to_string(), J::Null)])),
+            ("object-error-string", J::Obj(vec![("error".to_string(), s("x"))])),
+            ("object-value", J::Obj(vec![("value".to_string(), s("ok"))])),
         ],
         K::Bool => vec![
             ("string", s("true")),
@@ -1630,7 +1682,11 @@ fn make_doc(seed: u64, shard: u64, stream: u64, idx: u64) -> DocCase {
         gen_response(&mut rng)
     };
     let style = if stream == S_DEEP && rng.bool() { Style::compact() } else { Style::gen(&mut rng) };
-    let (j, sites) = build(&exp);
+    let (mut j, sites) = build(&exp);
+    if stream == S_DOC && rng.chance(1, 3) {
+        // members the protocol does not define, in the objects that do not keep extensions: a client ignores them
+        add_ignored(&mut j, &mut rng, "doc");
+    }
     let text = serialize(&j, &mut rng, &style);
     DocCase { exp, j, sites, style, text, probe, err_ok, coords: (seed, shard, stream, idx) }
 }
